@@ -434,6 +434,14 @@ SHAPES = [
     Shape("class_containers", b_class_containers, s_class_containers, tier="thorough"),
 ]
 BY_NAME = {s.name: s for s in SHAPES}
+# heavy shapes are split into shards (a partition of the paths by their concrete choices) to use all cores
+SHARDS = {"unions": 4, "subclass_default": 3, "set_literal_enum": 3, "subclass_opt": 2, "restricted": 2, "scalars": 2, "lists": 2, "subclass": 2,
+          "holder": 4, "class_containers": 4}
+
+
+def shard_jobs(shape):
+    n = SHARDS.get(shape, 1)
+    return [dict(shard=i, nshards=n) for i in range(n)] if n > 1 else [dict()]
 
 
 def shapes_for(tier):
